@@ -211,11 +211,50 @@ def gcd_harness(fn, w, header, obl):
     return h
 
 
+# ------------------------------------------------------------------------------------------------ lcm
+def lcm_harness(fn, w, obl):
+    """lcm(a, b) = a / gcd(a, b) * b with gcd taken by the contract the gcd proof establishes (assume-guarantee):
+    g = 0 exactly for two zeros, otherwise g >= 1 divides both arguments.  Claim: whenever a*b/g is representable in the
+    word, the result times g equals the product (so the result is a*b/g); two zeros give zero."""
+    gcdfn = fn.replace("lcm", "gcd")
+
+    def h(ex):
+        a0, b0 = ex.fresh_bv("a", w), ex.fresh_bv("b", w)
+        tx = bvint.T()
+        A, B = tx.term(a0), tx.term(b0)
+        ka, kb = z3.Int("ka"), z3.Int("kb")
+        st = {"hyp": [], "G": None}
+
+        def gcd_stub(ex, x, y):
+            same = all(is_sym(u) and u.eq(v) for u, v in ((x, a0), (y, b0)))
+            if not same:
+                obl.add("%s/gcd-not-called-with-the-arguments" % fn, "unknown", 0.0)
+                raise core.Infeasible()
+            g = ex.fresh_bv("g", w)
+            G = tx.term(g)
+            st["G"] = G
+            st["hyp"] = [(G == 0) == z3.And(A == 0, B == 0), z3.Implies(G >= 1, z3.And(A == ka * G, B == kb * G, ka >= 0, kb >= 0))]
+            return g
+        ex.hooks[gcdfn] = gcd_stub
+        r = ex.call(fn, a0, b0)
+        R = tx.term(r) if is_sym(r) else z3.IntVal(r)
+        G = st["G"]
+        if G is None:
+            obl.add("%s/gcd-not-called" % fn, "unknown", 0.0)
+            return
+        for name, goal in (("two-zeros-give-zero", z3.Implies(z3.And(A == 0, B == 0), R == 0)),
+                           ("quotient-is-exact", z3.Implies(G >= 1, z3.And(A % G == 0, B % G == 0))),
+                           ("result-times-gcd-is-the-product-when-representable", z3.Implies(z3.And(G >= 1, ka * B < 2 ** w), z3.And(R == ka * B, R * G == A * B)))):
+            res, dt, m = int_prove(ex, tx, st["hyp"], goal)
+            obl.add("%s/%s" % (fn, name), res, dt, m)
+    return h
+
+
 def run(mods, fn, kind, w, time_budget=600):
     """Explore the harness; returns (Obl, summary, executor)."""
     obl = Obl()
-    header = header_of(mods, fn)
+    header = header_of(mods, fn) if kind != "lcm" else None
     ex = core.Exec(mods, solver="inc", timeout_ms=120000)
-    h = (isqrt_harness if kind == "isqrt" else gcd_harness)(fn, w, header, obl)
+    h = lcm_harness(fn, w, obl) if kind == "lcm" else (isqrt_harness if kind == "isqrt" else gcd_harness)(fn, w, header, obl)
     summ = core.explore(ex, h, max_paths=2000, time_budget=time_budget)
     return obl, summ, ex, header
